@@ -2,6 +2,7 @@ package main
 
 import (
 	"os"
+	"strings"
 	"testing"
 )
 
@@ -19,5 +20,42 @@ func TestTranslateLoops(t *testing.T) {
 			t.Fatalf("%s: %v", fn, err)
 		}
 		t.Logf("def %s := %s", fn, s)
+	}
+}
+
+// Forms whose translation would be UNSOUND (second audit pass, X3) must be extraction errors, not terms:
+// byte shifts by a count that is not a literal < 8 (Lean takes the count mod 8), unsigned and narrow
+// integer types (Int does not wrap), a text-matched parameter consulted after one of its variables has
+// been assigned.  testdata/fake is the auditor's adversarial file plus two cases.
+func TestTranslateRejectsUnsoundForms(t *testing.T) {
+	repo := "testdata/fake"
+	cases := []struct {
+		fn     string
+		reject string // substring of the error ("" = must translate)
+	}{
+		{"shift8", "byte shift"}, {"shift3", ""}, {"uwrap", "uint"}, {"i8", "int8"},
+		{"textparam", "matched by text"}, {"twoerrs", "matched by text"}, {"divmod", ""}, {"sw", ""},
+	}
+	for _, cs := range cases {
+		tt := trTarget{name: cs.fn, file: "martian/x/x.go", fn: cs.fn, goParams: true, leanTy: "?", resTy: tyInt, retLean: "Int"}
+		switch cs.fn {
+		case "textparam":
+			tt.params = []trParam{{lean: "s0", goText: "s[0]", leanTy: "UInt8", ty: tyByte}}
+		case "twoerrs":
+			tt.resTy, tt.traceTy = tyErr, "events"
+			tt.effects = []trEffect{{"open", "event", "open"}}
+			tt.params = []trParam{{lean: "ok", goText: "err == nil", leanTy: "Bool", ty: tyBool}}
+		}
+		s, _, err := translateTarget(repo, &tt)
+		switch {
+		case cs.reject == "" && err != nil:
+			t.Errorf("%s: must translate, got %v", cs.fn, err)
+		case cs.reject != "" && err == nil:
+			t.Errorf("%s: must be refused (%s), got %s", cs.fn, cs.reject, s)
+		case cs.reject != "" && !strings.Contains(err.Error(), cs.reject):
+			t.Errorf("%s: refused for another reason: %v", cs.fn, err)
+		default:
+			t.Logf("%s: %v", cs.fn, err)
+		}
 	}
 }
